@@ -8,6 +8,8 @@ pub(crate) mod util;
 
 mod frame_compressor;
 mod levels;
+#[cfg(feature = "verif_hooks")]
+pub mod verif_enc;
 pub use frame_compressor::FrameCompressor;
 pub use match_generator::MatchGeneratorDriver;
 
